@@ -498,6 +498,59 @@ fn conservation<const W: usize>(g: &mut Groups, st: &mut Stats, depth: usize) {
     }
 }
 
+/// One long history on a queue of `CAP` entries (CAP far beyond the capacities of the search):
+/// alternately two kinds of faulty messages; after each the count query; CAP + 3 errors in all,
+/// then everything is read back.  Every prefix of this history is checked against a plain list.
+fn long_line<const CAP: usize>(g: &mut Groups, st: &mut Stats) {
+    let mut q: Qi<CAP> = Qi::new();
+    let mut model: std::collections::VecDeque<i16> = Default::default();
+    let mut report = |step: usize, what: String, g: &mut Groups| {
+        let key = step.to_string().into_bytes();
+        let feat = vec![("kind", "large-capacity-line".to_string())];
+        g.add("queue-model", &feat, (step, &key), || (json!({"cap": CAP, "alphabet": "line", "history": [], "step": step}), format!("StaticErrorQueue<{CAP}>, step {step} of the long history: {what}")));
+    };
+    let ask = |q: &mut Qi<CAP>, msg: &[u8], st: &mut Stats| -> Vec<u8> {
+        let mut w = RecW::unbounded();
+        run_on(q, msg, &mut w, Pattern::NONE);
+        st.execs += 1;
+        st.transitions += 1;
+        mc::log::with(|l| l.concat(mc::log::K::WBytes))
+    };
+    for k in 0..CAP + 3 {
+        let (msg, num): (&[u8], i16) = if k % 2 == 0 { (b"V 300\n", -120) } else { (b"ZZ\n", -113) };
+        ask(&mut q, msg, st);
+        if model.len() < CAP {
+            model.push_back(num);
+        } else {
+            *model.back_mut().unwrap() = -350;
+        }
+        let c = ask(&mut q, b"SYST:ERR:COUN?\n", st);
+        let want = format!("{}\n", model.len()).into_bytes();
+        if c != want {
+            report(k, format!("after {} errors SYST:ERR:COUN? answers \"{}\", {} entries are stored", k + 1, show(&c), model.len()), g);
+            return;
+        }
+    }
+    let mut step = CAP + 3;
+    while let Some(num) = model.pop_front() {
+        let r = ask(&mut q, b"SYST:ERR?\n", st);
+        if !r.starts_with(format!("{num},\"").as_bytes()) {
+            report(step, format!("SYST:ERR? answers \"{}\", the oldest entry is {num}", show(&r)), g);
+            return;
+        }
+        let c = ask(&mut q, b"SYST:ERR:COUN?\n", st);
+        if c != format!("{}\n", model.len()).into_bytes() {
+            report(step, format!("SYST:ERR:COUN? answers \"{}\", {} entries are stored", show(&c), model.len()), g);
+            return;
+        }
+        step += 1;
+    }
+    let r = ask(&mut q, b"SYST:ERR?\n", st);
+    if r != b"0,\"\"\n" {
+        report(step, format!("empty queue answers \"{}\"", show(&r)), g);
+    }
+}
+
 fn replay(path: &str) -> ! {
     let j: J = serde_json::from_str(&std::fs::read_to_string(path).unwrap()).unwrap();
     let w = &j["witness"];
@@ -509,7 +562,12 @@ fn replay(path: &str) -> ! {
     for r in 0..2 {
         let mut g = Groups::new();
         let mut st = Stats::default();
-        if alpha == "conservation" {
+        if alpha == "line" {
+            match cap {
+                70000 => long_line::<70000>(&mut g, &mut st),
+                _ => long_line::<300>(&mut g, &mut st),
+            }
+        } else if alpha == "conservation" {
             match w["writer"].as_u64().unwrap_or(32) {
                 16 => conservation::<16>(&mut g, &mut st, hist.len()),
                 24 => conservation::<24>(&mut g, &mut st, hist.len()),
@@ -600,6 +658,13 @@ fn main() {
     conservation::<32>(&mut out.groups, &mut cst, cdepth);
     conservation::<48>(&mut out.groups, &mut cst, cdepth);
     r.push((0, cst.transitions, cst.execs, 0));
+    // capacities beyond one and two bytes of count
+    let mut lst = Stats::default();
+    long_line::<300>(&mut out.groups, &mut lst);
+    if thorough {
+        long_line::<70000>(&mut out.groups, &mut lst);
+    }
+    r.push((0, lst.transitions, lst.execs, 0));
     let states: u64 = r.iter().map(|x| x.0).sum();
     let transitions: u64 = r.iter().map(|x| x.1).sum();
     let execs: u64 = r.iter().map(|x| x.2).sum();
@@ -624,6 +689,7 @@ fn main() {
         json!({"operations_full": full.iter().map(|o| json!({"message": show(o.text), "effect": format!("{:?}", o.micro)})).collect::<Vec<_>>(),
                "operations_small": small.iter().map(|o| show(o.text)).collect::<Vec<_>>(),
                "operations_medium": OPS_MEDIUM.iter().map(|o| show(o)).collect::<Vec<_>>(), "per_capacity": per_cap,
+               "large_capacity_line": {"capacities": if thorough { vec![300, 70000] } else { vec![300] }, "history": "CAP + 3 faulty messages, the count query after each, then everything read back; every prefix compared with a plain list", "operations": lst.transitions},
                "bounded_writer_conservation": {"writers": [16, 24, 32, 48], "operations": 7, "max_sequence_length": cdepth, "sequences": cst.transitions}}),
     );
     out.cov("overflow_states_visited", overflow);
